@@ -9,11 +9,12 @@ import sys
 
 HERE = os.path.dirname(os.path.dirname(os.path.abspath(__file__)))
 sys.path.insert(0, HERE)
-from atomica_sa.core import alpha  # noqa: E402
+from atomica_sa.core import alpha, normalise  # noqa: E402
 
 out = {}
 for f in sorted(glob.glob("/repo/atomica/*.py")):
     tree = ast.parse(open(f).read())
+    normalise.normalise(tree)
     out[os.path.basename(f)[:-3]] = {qn: alpha.local_shapes(fn) for qn, fn in alpha.functions_of(tree)}
 json.dump(out, open(alpha.TABLE, "w"), indent=0, sort_keys=True)
 print(sum(len(v) for v in out.values()), "functions,", sum(len(x) for v in out.values() for x in v.values()), "locals")
